@@ -484,3 +484,259 @@ Proof.
   - unfold names. simpl. rewrite Hnames. exact Hn.
   - rewrite E. intros [= <-]. unfold names. rewrite T. simpl. split; [exact Hnames|]. apply mapM_Forall2, Em.
 Qed.
+
+(* ---------------- Textgrid.editTimestamps ---------------- *)
+
+Lemma edit_tier_name t o m t' : edit_tier t o m = Ok t' -> tname t' = tname t.
+Proof.
+  destruct t as [t|t]; simpl.
+  - destruct (edit_i t o m) as [x|] eqn:E; [|discriminate]. intros [= <-]. simpl.
+    unfold edit_i in E. destruct (_ && _); [discriminate|]. eapply new_itier_name, E.
+  - destruct (edit_p t o m) as [x|] eqn:E; [|discriminate]. intros [= <-]. simpl.
+    unfold edit_p in E. destruct (_ && _); [discriminate|]. eapply new_ptier_name', E.
+Qed.
+
+Lemma edit_or_keep_name t o m t' : edit_or_keep t o m = Ok t' -> tname t' = tname t.
+Proof. unfold edit_or_keep. destruct (tents_empty t); [now intros [= <-]|apply edit_tier_name]. Qed.
+
+Lemma add_step_none_ok g t m u g' : add_step g t None m = (Ok u, g') ->
+  tiers g' = tiers g ++ [t] /\ span_le g g'.
+Proof.
+  intro H. split; [|exact (add_step_span _ _ _ _ _ _ H)].
+  unfold add_step in H. destruct (has_name g (tname t)); [discriminate|].
+  destruct (_ && _); [discriminate|]. now injection H as _ <-.
+Qed.
+
+Lemma span_le_trans a b c : span_le a b -> span_le b c -> span_le a c.
+Proof.
+  unfold span_le. intros [A1 A2] [B1 B2]. split.
+  - destruct (tgmin a), (tgmin b), (tgmin c); try tauto; lia.
+  - destruct (tgmax a), (tgmax b), (tgmax c); try tauto; lia.
+Qed.
+
+Lemma edit_all_ok l o m : forall g g',
+  edit_all g l o m = Ok g' ->
+  exists l', tiers g' = tiers g ++ l' /\ Forall2 (fun t t' => edit_or_keep t o m = Ok t') l l' /\ span_le g g'.
+Proof.
+  induction l as [|t l IH]; intros g g' H; cbn [edit_all] in H.
+  - injection H as <-. exists []. rewrite app_nil_r. split; [reflexivity|]. split; [constructor|apply span_le_refl].
+  - destruct (edit_or_keep t o m) as [t'|] eqn:E; [|discriminate]. cbn [bind] in H.
+    destruct (add_step g t' None m) as [[u|e] g1] eqn:A; [|discriminate].
+    destruct (add_step_none_ok _ _ _ _ _ A) as [T1 S1].
+    destruct (IH _ _ H) as (l' & T & F & S). exists (t' :: l'). split; [|split].
+    + rewrite T, T1, <- app_assoc. reflexivity.
+    + constructor; assumption.
+    + eapply span_le_trans; eassumption.
+Qed.
+
+(* Textgrid.editTimestamps: the same tiers in the same order, each one that tier's own
+   editTimestamps (tiers without entries are kept as they are), and the textgrid's span never shrinks *)
+Theorem tg_edit_tierwise g o m g' :
+  tg_edit g o m = Ok g' ->
+  names g' = names g
+  /\ Forall2 (fun t t' => edit_or_keep t o m = Ok t') (tiers g) (tiers g')
+  /\ span_le g g'.
+Proof.
+  unfold tg_edit. intro H. destruct (edit_all_ok _ _ _ _ _ H) as (l' & T & F & S). cbn [tiers app] in T.
+  rewrite T. split; [|split; [exact F|]].
+  - unfold names. rewrite T. clear - F. induction F as [|t t' l l' E F IH]; [reflexivity|].
+    cbn [map]. now rewrite IH, (edit_or_keep_name _ _ _ _ E).
+  - unfold span_le in *. cbn [tgmin tgmax] in S. exact S.
+Qed.
+
+(* ---------------- Textgrid.appendTextgrid: which tiers, in which order ---------------- *)
+
+Lemma name_in_In n l : name_in n l = true <-> In n l.
+Proof.
+  unfold name_in. rewrite existsb_exists. split.
+  - intros (x & Hx & E). apply text_eqb_eq in E. now subst.
+  - intro H. exists n. split; [exact H|apply text_eqb_refl].
+Qed.
+
+Lemma find_tier_none n l : find_tier n l = None <-> ~ In n (map tname l).
+Proof.
+  induction l as [|t l IH]; simpl; [tauto|].
+  destruct (text_eqb (tname t) n) eqn:E.
+  - apply text_eqb_eq in E. split; [discriminate|]. intro H. exfalso. apply H. now left.
+  - apply text_eqb_neq in E. rewrite IH. tauto.
+Qed.
+
+Lemma reinsert_names n l k t :
+  index_of n l = Some k -> tname t = n ->
+  map tname (py_insert (remove_named n l) (Z.of_nat k) t) = map tname l.
+Proof.
+  revert k. induction l as [|t0 l IH]; intros k Ei Et; [discriminate|]. simpl in *.
+  destruct (text_eqb (tname t0) n) eqn:E.
+  - injection Ei as <-. rewrite py_insert_zero. simpl. apply text_eqb_eq in E. congruence.
+  - destruct (index_of n l) as [j|] eqn:Ej; [|discriminate]. injection Ei as <-.
+    rewrite py_insert_cons.
+    + simpl. f_equal. now apply IH.
+    + pose proof (remove_named_length n l j Ej). pose proof (index_of_lt n l j Ej). lia.
+Qed.
+
+Lemma add_all_inv l m : forall g g', add_all g l m = Ok g' -> tiers g' = tiers g ++ l.
+Proof.
+  induction l as [|t l IH]; intros g g' H; cbn [add_all] in H.
+  - injection H as <-. now rewrite app_nil_r.
+  - destruct (add_step g t None m) as [[u|e] g1] eqn:A; [|discriminate].
+    destruct (add_step_none_ok _ _ _ _ _ A) as [T1 _]. rewrite (IH _ _ H), T1, <- app_assoc. reflexivity.
+Qed.
+
+Lemma respan_name t mn mx t' : respan t mn mx = Ok t' -> tname t' = tname t.
+Proof.
+  destruct t as [t|t]; simpl.
+  - destruct (new_itier _ _ _ _) as [x|] eqn:E; [|discriminate]. intros [= <-]. simpl. eapply new_itier_name, E.
+  - destruct (new_ptier _ _ _ _) as [x|] eqn:E; [|discriminate]. intros [= <-]. simpl. eapply new_ptier_name', E.
+Qed.
+
+Lemma join_entries_name a b mn mx t' : join_entries a b mn mx = Ok t' -> tname t' = tname a.
+Proof.
+  destruct a as [a|a], b as [b|b]; simpl; try discriminate.
+  - destruct (new_itier _ _ _ _) as [x|] eqn:E; [|discriminate]. intros [= <-]. simpl. eapply new_itier_name, E.
+  - destruct (new_ptier _ _ _ _) as [x|] eqn:E; [|discriminate]. intros [= <-]. simpl. eapply new_ptier_name', E.
+Qed.
+
+(* one step of the second loop: the tier named n is replaced where it stands, or appended at the end *)
+Lemma append_one_names ma mn mx B g n g' :
+  append_one ma mn mx B g n = Ok g' ->
+  names g' = names g ++ (if name_in n (names B) && negb (name_in n (names g)) then [n] else []).
+Proof.
+  unfold append_one. destruct (find_tier n (tiers B)) as [tb|] eqn:FB.
+  - destruct (find_tier_name _ _ _ FB) as [NB InB].
+    assert (name_in n (names B) = true) as -> by (apply name_in_In; unfold names; rewrite <- NB; now apply in_map).
+    destruct (respan tb mn mx) as [t1|] eqn:R1; [|discriminate]. cbn [bind].
+    destruct (edit_tier t1 ma RWarning) as [t2|] eqn:E2; [|discriminate]. cbn [bind].
+    assert (tname t2 = n) as N2 by (rewrite (edit_tier_name _ _ _ _ E2), (respan_name _ _ _ _ R1); exact NB).
+    destruct (find_tier n (tiers g)) as [ta|] eqn:FG.
+    + destruct (find_tier_name _ _ _ FG) as [NA InA].
+      assert (name_in n (names g) = true) as -> by (apply name_in_In; unfold names; rewrite <- NA; now apply in_map).
+      destruct (join_entries ta t2 mn mx) as [t3|] eqn:J; [|discriminate]. cbn [bind].
+      destruct (replace_step g n t3 RWarning) as [[u|e] g2] eqn:RS; [|discriminate]. intros [= <-].
+      destruct (replace_step_ok _ _ _ _ _ _ RS) as (k & Ek & T). cbn [andb negb]. rewrite app_nil_r.
+      unfold names. rewrite T. apply reinsert_names; [exact Ek|]. rewrite (join_entries_name _ _ _ _ _ J). exact NA.
+    + assert (name_in n (names g) = false) as ->.
+      { destruct (name_in n (names g)) eqn:X; [|reflexivity]. apply name_in_In in X. apply find_tier_none in FG. contradiction. }
+      destruct (respan t2 mn mx) as [t3|] eqn:R3; [|discriminate]. cbn [bind].
+      destruct (add_step g t3 None RWarning) as [[u|e] g2] eqn:A; [|discriminate]. intros [= <-].
+      destruct (add_step_none_ok _ _ _ _ _ A) as [T _]. cbn [andb negb]. unfold names. rewrite T, map_app. cbn [map].
+      now rewrite (respan_name _ _ _ _ R3), N2.
+  - intros [= <-]. assert (name_in n (names B) = false) as ->; [|cbn [andb]; now rewrite app_nil_r].
+    destruct (name_in n (names B)) eqn:X; [|reflexivity]. apply name_in_In in X. apply find_tier_none in FB. contradiction.
+Qed.
+
+Lemma fold_append_names ma mn mx B : forall final g g', NoDup final ->
+  fold_res (append_one ma mn mx B) final g = Ok g' ->
+  names g' = names g ++ filter (fun n => name_in n (names B) && negb (name_in n (names g))) final.
+Proof.
+  induction final as [|n rest IH]; intros g g' ND H; cbn [fold_res] in H.
+  - injection H as <-. cbn [filter]. now rewrite app_nil_r.
+  - destruct (append_one ma mn mx B g n) as [g2|] eqn:A; [|discriminate]. cbn [bind] in H.
+    inversion ND as [|? ? NI ND']; subst.
+    pose proof (append_one_names _ _ _ _ _ _ _ A) as N2. rewrite (IH _ _ ND' H). cbn [filter].
+    assert (filter (fun x => name_in x (names B) && negb (name_in x (names g2))) rest
+            = filter (fun x => name_in x (names B) && negb (name_in x (names g))) rest) as ->.
+    { apply filter_ext_in. intros x Hx. f_equal. f_equal. rewrite N2.
+      destruct (name_in n (names B) && negb (name_in n (names g))); [|now rewrite app_nil_r].
+      unfold name_in. rewrite existsb_app. cbn [existsb]. rewrite orb_false_r.
+      destruct (text_eqb x n) eqn:E; [|now rewrite orb_false_r].
+      apply text_eqb_eq in E. subst. contradiction. }
+    rewrite N2.
+    destruct (name_in n (names B) && negb (name_in n (names g))); [now rewrite <- app_assoc|now rewrite app_nil_r].
+Qed.
+
+Lemma filter_map_find_names A l :
+  map tname (filter_map (fun n => find_tier n (tiers A)) l) = filter (fun n => name_in n (names A)) l.
+Proof.
+  induction l as [|n l IH]; [reflexivity|]. cbn [filter_map filter].
+  destruct (find_tier n (tiers A)) as [t|] eqn:F.
+  - destruct (find_tier_name _ _ _ F) as [N I].
+    assert (name_in n (names A) = true) as -> by (apply name_in_In; unfold names; rewrite <- N; now apply in_map).
+    cbn [map]. now rewrite IH, N.
+  - assert (name_in n (names A) = false) as ->; [|exact IH].
+    destruct (name_in n (names A)) eqn:X; [|reflexivity]. apply name_in_In in X. apply find_tier_none in F. contradiction.
+Qed.
+
+Lemma filter_all {A} (p : A -> bool) l : (forall x, In x l -> p x = true) -> filter p l = l.
+Proof.
+  induction l as [|x l IH]; intro H; [reflexivity|]. cbn [filter]. rewrite (H x (or_introl eq_refl)).
+  f_equal. apply IH. intros y Hy. apply H. now right.
+Qed.
+
+Lemma filter_none {A} (p : A -> bool) l : (forall x, In x l -> p x = false) -> filter p l = [].
+Proof.
+  induction l as [|x l IH]; intro H; [reflexivity|]. cbn [filter]. rewrite (H x (or_introl eq_refl)).
+  apply IH. intros y Hy. apply H. now right.
+Qed.
+
+Lemma NoDup_app_intro {A} (l m : list A) :
+  NoDup l -> NoDup m -> (forall x, In x l -> In x m -> False) -> NoDup (l ++ m).
+Proof.
+  induction l as [|a l IH]; intros Hl Hm Hd; [exact Hm|]. cbn [app]. inversion Hl as [|? ? Na Hl']; subst.
+  constructor.
+  - intro Hin. apply in_app_or in Hin as [Hin|Hin]; [contradiction|]. apply (Hd a); [now left|exact Hin].
+  - apply IH; [exact Hl'|exact Hm|]. intros x Hx Hy. apply (Hd x); [now right|exact Hy].
+Qed.
+
+Lemma final_names_nodup A B only : NoDup (names A) -> NoDup (names B) -> NoDup (final_names A B only).
+Proof.
+  intros HA HB. unfold final_names.
+  assert (NoDup (names A ++ filter (fun n => negb (name_in n (names A))) (names B))) as ND.
+  { apply NoDup_app_intro; [exact HA|now apply NoDup_filter|].
+    intros x Hx Hy. apply filter_In in Hy as [_ Hy]. apply negb_true_iff in Hy.
+    apply name_in_In in Hx. congruence. }
+  destruct only; [now apply NoDup_filter|exact ND].
+Qed.
+
+(* the tiers of the result, by name and in order: with onlyMatchingNames the tiers of A that B
+   also has, in A's order; otherwise A's tiers followed by the tiers only B has, in B's order *)
+Theorem tg_append_names A B only g' :
+  NoDup (names A) -> NoDup (names B) -> tg_append A B only = Ok g' ->
+  names g' = (if only then filter (fun n => name_in n (names B)) (names A)
+              else names A ++ filter (fun n => negb (name_in n (names A))) (names B)).
+Proof.
+  intros HA HB. unfold tg_append.
+  destruct (tgmin A) as [mn|]; [|discriminate]. destruct (tgmax A) as [ma|]; [|discriminate].
+  destruct (tgmax B) as [mb|]; [|discriminate].
+  cbv zeta. remember (final_names A B only) as final eqn:EF.
+  assert (NoDup final) as NDF by (rewrite EF; now apply final_names_nodup).
+  destruct (add_all _ _ RWarning) as [g1|] eqn:AA; [|discriminate]. cbn [bind]. intro H.
+  pose proof (add_all_inv _ _ _ _ AA) as T1. cbn [tiers app] in T1.
+  assert (names g1 = filter (fun n => name_in n (names A)) final) as N1
+    by (unfold names at 1; rewrite T1; apply filter_map_find_names).
+  rewrite (fold_append_names _ _ _ _ _ _ _ NDF H), N1.
+  (* inside final, membership in the first loop's result is membership in A *)
+  assert (filter (fun n => name_in n (names B) && negb (name_in n (filter (fun n0 => name_in n0 (names A)) final))) final
+          = filter (fun n => name_in n (names B) && negb (name_in n (names A))) final) as ->.
+  { apply filter_ext_in. intros x Hx. f_equal. f_equal.
+    destruct (name_in x (names A)) eqn:XA.
+    - apply name_in_In. apply filter_In. split; [exact Hx|exact XA].
+    - destruct (name_in x (filter _ final)) eqn:XF; [|reflexivity].
+      apply name_in_In, filter_In in XF as [_ XF]. congruence. }
+  rewrite EF. unfold final_names.
+  set (X := filter (fun n => negb (name_in n (names A))) (names B)).
+  assert (forall x, In x X -> name_in x (names A) = false /\ name_in x (names B) = true) as HX.
+  { intros x Hx. apply filter_In in Hx as [H1 H2]. apply negb_true_iff in H2. split; [exact H2|now apply name_in_In]. }
+  assert (forall x, In x (names A) -> name_in x (names A) = true) as HAin by (intros x Hx; now apply name_in_In).
+  destruct only.
+  - rewrite !filter_app.
+    rewrite (filter_none (fun n => name_in n (names A) && name_in n (names B)) X)
+      by (intros x Hx; destruct (HX x Hx) as [-> _]; reflexivity).
+    rewrite app_nil_r.
+    set (F := filter (fun n => name_in n (names A) && name_in n (names B)) (names A)).
+    assert (F = filter (fun n => name_in n (names B)) (names A)) as EqF.
+    { unfold F. apply filter_ext_in. intros x Hx. now rewrite (HAin x Hx). }
+    assert (forall x, In x F -> name_in x (names A) = true) as HF.
+    { intros x Hx. unfold F in Hx. apply filter_In in Hx as [Hx _]. now apply HAin. }
+    rewrite (filter_all (fun n => name_in n (names A)) F HF).
+    rewrite (filter_none (fun n => name_in n (names B) && negb (name_in n (names A))) F)
+      by (intros x Hx; rewrite (HF x Hx); apply andb_false_r).
+    now rewrite app_nil_r.
+  - rewrite !filter_app.
+    rewrite (filter_all (fun n => name_in n (names A)) (names A) HAin).
+    rewrite (filter_none (fun n => name_in n (names A)) X) by (intros x Hx; apply (HX x Hx)).
+    rewrite (filter_none (fun n => name_in n (names B) && negb (name_in n (names A))) (names A))
+      by (intros x Hx; rewrite (HAin x Hx); apply andb_false_r).
+    rewrite (filter_all (fun n => name_in n (names B) && negb (name_in n (names A))) X)
+      by (intros x Hx; destruct (HX x Hx) as [-> ->]; reflexivity).
+    now rewrite app_nil_r.
+Qed.
